@@ -352,6 +352,7 @@ def _(e, st, raw, n, a, m):
     src = m.group(2).strip()
     ev = a[0][3][0]
     if norm_ty(tgt) == norm_ty(src): return [(T, err(ev))]
+    if 'Box<dyn' in tgt: return [(T, err(('opaque', 'dyn-error')))]      # std: From<&str / String / E: Error> for Box<dyn Error>
     f = e.prog.resolve('<%s as From<%s>>::from' % (tgt, src))
     if f is None: raise Unsupported('no From<%s> for %s' % (src, tgt))
     return [(T, ('tailcall', f, [ev], lambda s2, r: err(r)))]
@@ -489,6 +490,87 @@ def _(e, st, raw, n, a, m):
 
 @summary(r'^Option::ok_or$')
 def _(e, st, raw, n, a, m): return opt_cases(a[0], lambda x: ok(x), err(a[1]))
+
+
+def call_closure(e, f, args, post=None):
+    if f[0] == 'closure' or (f[0] == 'zst' and 'closure@' in f[1]):
+        return ('tailcall', e.closure_body(('closure', f[1])), [f] + args, post)
+    if f[0] in ('fn', 'zst'):
+        name = f[1].replace('ZeroSized: ', '')
+        mm = re.match(r'^fn\(.*\) (?:-> .* )?\{(.*)\}$', name)
+        if mm: name = mm.group(1)
+        tgt = e.prog.resolve(name)
+        if tgt: return ('tailcall', tgt, args, post)
+    raise Unsupported('call of function value ' + str(f)[:80])
+
+
+@summary(r'^Result::map_err$')
+def _(e, st, raw, n, a, m):
+    v = a[0]
+    if v[0] == 'sadt': raise Unsupported('map_err on symbolic Result')
+    if v[2] == 'Ok': return [(T, v)]
+    return [(T, call_closure(e, a[1], [v[3][0]], lambda s2, r: err(r)))]
+
+
+@summary(r'^Result::map$')
+def _(e, st, raw, n, a, m):
+    v = a[0]
+    if v[0] == 'sadt': raise Unsupported('map on symbolic Result')
+    if v[2] == 'Err': return [(T, v)]
+    return [(T, call_closure(e, a[1], [v[3][0]], lambda s2, r: ok(r)))]
+
+
+@summary(r'^Result::and_then$')
+def _(e, st, raw, n, a, m):
+    v = a[0]
+    if v[2] == 'Err': return [(T, v)]
+    return [(T, call_closure(e, a[1], [v[3][0]], None))]
+
+
+@summary(r'^Option::ok_or_else$')
+def _(e, st, raw, n, a, m):
+    v = a[0]
+    if v[0] == 'sadt':
+        return [(v[2] == 1, ok(v[3]['Some'][0])), (v[2] == 0, call_closure(e, a[1], [], lambda s2, r: err(r)))]
+    if v[2] == 'Some': return [(T, ok(v[3][0]))]
+    return [(T, call_closure(e, a[1], [], lambda s2, r: err(r)))]
+
+
+@summary(r'^Option::unwrap_or_else$')
+def _(e, st, raw, n, a, m):
+    v = a[0]
+    if v[0] == 'sadt': return [(v[2] == 1, v[3]['Some'][0]), (v[2] == 0, call_closure(e, a[1], [], None))]
+    if v[2] == 'Some': return [(T, v[3][0])]
+    return [(T, call_closure(e, a[1], [], None))]
+
+
+@summary(r'^Result::unwrap_or$')
+def _(e, st, raw, n, a, m): return [(T, a[0][3][0] if a[0][2] == 'Ok' else a[1])]
+
+
+@summary(r'^Result::unwrap_or_default$')
+def _(e, st, raw, n, a, m):
+    if a[0][2] == 'Ok': return [(T, a[0][3][0])]
+    mm = re.match(r'^Result::<(\w+),', raw)
+    ty = mm.group(1) if mm else '?'
+    if ty in INT_TYPES: return [(T, 0)]
+    if ty == 'f64': return [(T, fp_const(0.0))]
+    raise Unsupported('unwrap_or_default of Result<' + ty)
+
+
+@summary(r'^<(\w+) as TryFrom<(\w+)>>::try_from$|^<(\w+) as TryInto<(\w+)>>::try_into$')
+def _(e, st, raw, n, a, m):
+    dst, src = (m.group(1), m.group(2)) if m.group(1) else (m.group(4), m.group(3))
+    if dst not in INT_TYPES or src not in INT_TYPES: raise Unsupported('TryFrom %s -> %s' % (src, dst))
+    x = a[0]
+    lo, hi = int_range(dst)
+    if is_bv(x):
+        inr = b_and(i_cmp('Ge', x, max(lo, int_range(src)[0]), src), i_cmp('Le', x, min(hi, int_range(src)[1]), src))
+    else:
+        inr = in_range(x, dst)
+    if inr is True: return [(T, ok(i_cast(x, src, dst)))]
+    if inr is False: return [(T, err(('opaque', 'TryFromIntError')))]
+    return [(inr, ok(i_cast(x, src, dst))), (b_not(inr), err(('opaque', 'TryFromIntError')))]
 
 
 @summary(r'^Result::is_ok$')
